@@ -12,6 +12,7 @@ import (
 	"net/netip"
 	"os"
 	"path/filepath"
+	"runtime"
 	"sort"
 	"strconv"
 	"strings"
@@ -219,7 +220,7 @@ func c14Save(variant, sizeS, seedS, probe string) []string {
 		finalOK = err != nil && vc14.FileSum(dest) == oldSum
 	}
 
-	return []string{vutil.B(err == nil), strconv.Itoa(len(after)), vutil.B(finalOK), oldSum, vc14.FileSum(dest)}
+	return []string{vutil.B(err == nil), strconv.Itoa(len(expected)), vutil.B(finalOK), oldSum, vc14.FileSum(dest)}
 }
 
 // c14Race stores two different lease sets at the same time from two goroutines
@@ -238,6 +239,11 @@ func c14Race(variant, sizeA, seedA, sizeB, seedB string) []string {
 	la, ea := mk(sizeA, seedA)
 	lb, eb := mk(sizeB, seedB)
 	var errA, errB error
+	if strings.HasSuffix(variant, "1") {
+		// One processor (a small router): while one saver sits in a syscall the
+		// other runs on the same P, right behind it.
+		defer runtime.GOMAXPROCS(runtime.GOMAXPROCS(1))
+	}
 	vc14.Window(func() {
 		done := make(chan struct{})
 		go func() { errA = writeDB(dest, la); close(done) }()
@@ -325,7 +331,7 @@ func (p *c14Parent) gen(r *rand.Rand, emit vutil.Emit) {
 				if sb > 1<<20 {
 					sb = 1 << 20
 				}
-				emit("C14.race", "writedb", strconv.Itoa(size), seed, strconv.Itoa(sb),
+				emit("C14.race", vutil.Pick(r, []string{"writedb", "writedb1", "writedb1"}), strconv.Itoa(size), seed, strconv.Itoa(sb),
 					strconv.FormatUint(r.Uint64N(1<<40), 10), mode)
 
 				continue
